@@ -74,8 +74,39 @@ def definition(rng):
             seen.add(cb["tix"])
         keep.append(cb)
     d["cbs"] = keep
+    # state values of every kind (falsy ones included) and display names shared by several states: the picture is
+    # about state identity, not about truthiness, values or names
+    d["value_scheme"] = gen.assign_values(rng, d, same_name_p=0.3)
     harness.normalize_def(d)
     return d
+
+
+def drive(rng, cls, d, want):
+    """A fresh instance brought into state `want` by real events (guards all hold), or None."""
+    from collections import deque
+    nxt = {}
+    for t in d["trans"]:
+        nxt.setdefault(t["src"], []).append(t)
+    prev, todo = {d["initial"]: None}, deque([d["initial"]])
+    while todo:
+        s = todo.popleft()
+        for t in nxt.get(s, []):
+            if t["tgt"] not in prev:
+                prev[t["tgt"]] = (s, t)
+                todo.append(t["tgt"])
+    if want not in prev:
+        return None
+    path = []
+    s = want
+    while prev[s] is not None:
+        s, t = prev[s]
+        path.append(t)
+    sm = cls()
+    for t in reversed(path):
+        sm.send(t["evs"][0])
+        if sm.current_state.id != t["tgt"]:
+            return None      # an earlier candidate of the source carries the same event
+    return sm if sm.current_state.id == want else None
 
 
 def spec_def(d):
@@ -113,19 +144,37 @@ def run(pid, tier, seed, replay):
         items.append((d, "", obs, "class"))
         cases.append({"d": sd, "cur": ""})
         sm = b.cls()
+        rt.gv = {g: True for g in gen.GNAMES}
+        rt.gv["none"] = True
         for s in d["states"]:
-            sm.current_state_value = s["id"]
-            try:
-                obs = project(sm._graph())
-            except Exception as e:  # noqa: BLE001
-                chk.report({"kind": "diagram_failed", "what": "instance", "error": type(e).__name__},
-                           f"sm._graph() raised {type(e).__name__}: {str(e)[:100]}", {"definition": d, "cur": s["id"]})
-                continue
-            items.append((d, s["id"], obs, "instance"))
-            cases.append({"d": sd, "cur": s["id"]})
+            value = harness.decode_value(s["value"]) if s.get("value") is not None else s["id"]
+            for how in ("placed", "driven"):
+                if how == "placed":
+                    sm.current_state_value = value
+                    inst = sm
+                else:
+                    try:
+                        inst = drive(rng, b.cls, d, s["id"])
+                    except Exception:  # noqa: BLE001 - an unless guard blocks the path: placing is enough
+                        inst = None
+                    if inst is None:
+                        continue
+                try:
+                    obs = project(inst._graph())
+                except Exception as e:  # noqa: BLE001
+                    chk.report({"kind": "diagram_failed", "what": "instance", "error": type(e).__name__, "how": how,
+                                "values": d["value_scheme"]},
+                               f"sm._graph() raised {type(e).__name__}: {str(e)[:100]}", {"definition": d, "cur": s["id"]})
+                    continue
+                items.append((d, s["id"], obs, "instance " + how))
+                cases.append({"d": sd, "cur": s["id"]})
     res, st = tlc.eval_batch("Eval_Diagram.tla", cases, shards=10)
     chk.coverage["tlc_cases_evaluated"] = len(cases)
     distinct = set()
+    chk.coverage["instances_reached_by_events"] = sum(1 for it in items if it[3] == "instance driven")
+    chk.coverage["instances_in_falsy_valued_state"] = sum(
+        1 for (d, cur, _o, _w) in items
+        if cur and any(x["id"] == cur and x.get("value") is not None and not harness.decode_value(x["value"]) for x in d["states"]))
     for (d, cur, obs, what), r in zip(items, res):
         want = r["dia"]
         distinct.add((len(d["states"]), len(d["trans"]), cur != "", sum(1 for t in d["trans"] if t["internal"])))
@@ -141,13 +190,17 @@ def run(pid, tier, seed, replay):
             diffs.append(("internal transitions listed in states", want["internal"], obs["internal"]))
         if diffs:
             part, w, o = diffs[0]
-            chk.report({"kind": "diagram_mismatch", "part": part, "what": what},
+            falsy = any(not (harness.decode_value(x["value"]) if x.get("value") is not None else x["id"])
+                        for x in d["states"] if x["id"] == cur)
+            chk.report({"kind": "diagram_mismatch", "part": part, "what": what, "values": d["value_scheme"],
+                        "current_value_falsy": falsy},
                        f"diagram of {what} (current state {cur or 'none'}): {part}: specification {str(w)[:260]} drawn {str(o)[:260]}",
                        {"definition": d, "cur": cur, "expected": want, "observed": obs})
         elif len(chk.samples) < 2:
             chk.add_sample({"states": d["states"], "trans": d["trans"], "cur": cur, "diagram": obs})
     chk.coverage.update({"evaluations": len(cases), "distinct_nontrivial": len(distinct), "exhaustive": False,
                          "rule": ("random definitions of 1-5 states / up to 12 transitions (guards as cond and unless, multi-event, self, "
-                                  "internal, parallel transitions, final states); the class and an instance in every state as current "
-                                  "state; distinct = (#states, #transitions, class-or-instance, #internal transitions)")})
+                                  "internal, parallel transitions, final states; state values of every kind incl. falsy ones, shared "
+                                  "display names); the class and an instance in every state as current state, placed through the "
+                                  "setter and reached by real events; distinct = (#states, #transitions, class-or-instance, #internal transitions)")})
     return chk.finish()
